@@ -218,6 +218,11 @@ def oracle_forest(case, ctx):
         X3 = panelpool.panel_values(case["seed"], n, 1, t, kind="noise") + level
         Xa = panelpool.panel_values(case["seed"] + 3, case["n_apply"], 1, t, kind="noise") + level
         ctx.label("level_%g" % level)
+    if case.get("int_panel") and not level:
+        # integer-valued observations stored with an integer dtype (counts)
+        X3 = np.round(X3 * 3).astype("int64")
+        Xa = np.round(Xa * 3).astype("int64")
+        ctx.label("integer_dtype_panel")
     ctx.mark_nontrivial(True)
     discs = []
     if case["which"] == "classifier":
@@ -357,6 +362,7 @@ def forest_cases(draw):
         "n_estimators": draw(st.integers(1, 6)), "rs": draw(st.integers(0, 1000)), "seed": draw(st.integers(0, 10 ** 6)),
         "n_jobs": draw(st.sampled_from([1, 1, 2])),
         "level": draw(st.sampled_from([0.0, 0.0, 1e3, 1e6, 1e7])), "refit_other_params": draw(st.integers(0, 2)) == 0,
+        "int_panel": draw(st.integers(0, 2)) == 0,
     }
 
 
